@@ -21,7 +21,7 @@ THEOREMS = ["Qentem.Props.C15." + t for t in [
     "val_lt_same_kind", "val_lt_cross_kind", "value_type_ranks",
     "sort_ordered_permutation", "sort_segment", "str_lt_strict", "str_gt_strict", "string_sort_ascending",
     "string_sort_descending", "val_lt_strict", "val_gt_strict", "value_sort_ordered_false", "value_sort_partial",
-    "value_sort_le_chain_partial",
+    "value_sort_le_chain_partial", "oracle_permutation_sound", "oracle_ordered_sound", "oracle_chain_sound",
 ]]
 
 OPEN = ["Qentem.Props.C15.ValueOrderLaws (false on the current code: pointer operand facing a shallower nesting; NaN) — proved under depth/noNaN hypotheses",
@@ -197,7 +197,7 @@ def strings_stage(ctx, rep, exe, drv):
     for v, m, ol in zip(verdicts, meta, olines):
         if v != "ok":
             rep.fail("string-order:" + v, "order law '%s' fails on the implementation's answers for %s (%s)" % (v, m, ol), {"operands": m, "oracle_line": ol})
-    ctx.count("string-order-oracle", len(olines), len(set(olines)))
+    ctx.count("string-order-oracle", len(olines), len(set(zip(olines, meta))))
 
 
 # ------------------------------------------------------------------------------------------------
@@ -229,7 +229,7 @@ def values_stage(ctx, rep, exe, drv):
         if v != "ok":
             key = known_class(list(m)) or ("value-order:" + v)
             rep.fail(key, "order law '%s' fails on the implementation's answers for values %s (%s)" % (v, " ".join(m), ol), {"operands": list(m), "oracle_line": ol})
-    ctx.count("value-order-oracle", len(olines), len(set(olines)))
+    ctx.count("value-order-oracle", len(olines), len(set(meta)))
 
 
 # ------------------------------------------------------------------------------------------------
@@ -278,19 +278,19 @@ def sorts_stage(ctx, rep, exe, drv):
     again = []
     for l, o in zip(lines[::3], impl[::3]):
         if not o.startswith("FAULT") and o != "bad-op":
-            again.append("ordsortv 1 " + o); again.append("ordsortv 0 " + o)
+            again.append("ordsortv 1 " + o.split(" ")[0]); again.append("ordsortv 0 " + o.split(" ")[0])
     impl2, model2 = run_both(ctx, exe, drv, "value-array-sort(sorted/reversed input)", again, nontrivial=lambda l: "," in l)
     olines, meta = [], []
     for l, o in list(zip(lines, impl)) + list(zip(again, impl2)):
         if o.startswith("FAULT") or o == "bad-op":
             continue
         t = l.split(" ")
-        olines.append("ordoraclesortv %s %s %s" % (t[1], t[2], o)); meta.append(l)
+        olines.append("ordoraclesort %s %s" % (t[2], o)); meta.append(l)
     for v, l, ol in zip(oracle(ctx, drv, olines), meta, olines):
         if v != "ok":
             toks = [] if l.split(" ")[2] == "-" else l.split(" ")[2].split(",")
-            key = (v == "not-ordered" and known_class(toks)) or ("sort:" + v)
-            rep.fail(key, "Sort result is '%s': %s -> %s" % (v, l, ol.split(" ")[3]), {"line": l, "impl_output": ol.split(" ")[3]})
+            key = (v in ("not-ordered", "not-a-chain") and known_class(toks)) or ("sort:" + v)
+            rep.fail(key, "Sort result is '%s' (by the implementation's own comparisons): %s -> %s" % (v, l, ol.split(" ")[2]), {"line": l, "impl_output": ol.split(" ")[2]})
     ctx.count("value-array-sort-oracle", len(olines), len(set(olines)))
 
     # ---- arrays of strings
@@ -319,10 +319,10 @@ def sorts_stage(ctx, rep, exe, drv):
         if o.startswith("FAULT") or o == "bad-op":
             continue
         t = l.split(" ")
-        olines.append("%s %s %s %s" % ("ordoraclesortss" if t[2] == "1s" else "ordoraclesorts", t[1], t[3], o)); meta.append(l)
+        olines.append("ordoraclesort %s %s" % (t[3], o)); meta.append(l)
     for v, l, ol in zip(oracle(ctx, drv, olines), meta, olines):
         if v != "ok":
-            rep.fail("sort:" + v, "Array<String>::Sort result is '%s': %s -> %s" % (v, l, ol.split(" ")[3]), {"line": l, "impl_output": ol.split(" ")[3]})
+            rep.fail("sort:" + v, "Array<String>::Sort result is '%s': %s -> %s" % (v, l, ol.split(" ")[2]), {"line": l, "impl_output": ol.split(" ")[2]})
     ctx.count("string-array-sort-oracle", len(olines), len(set(olines)))
 
     # ---- objects / hash arrays (keys sorted, removed members, lookups afterwards)
@@ -348,14 +348,14 @@ def sorts_stage(ctx, rep, exe, drv):
         if o.startswith("FAULT") or o == "bad-op":
             continue
         t = o.split(" ")
-        if len(t) != 3:
+        if len(t) != 5:
             ctx.fail("object-sort-output", "unexpected harness output %s for %s" % (o, l), {"line": l})
             continue
-        if t[2] != "lookups-ok":
-            rep.fail("lookup-after-sort", "after Sort a lookup by key is wrong (%s): %s" % (t[2], l), {"line": l, "impl_output": o})
+        if t[4] != "lookups-ok":
+            rep.fail("lookup-after-sort", "after Sort a lookup by key is wrong (%s): %s" % (t[4], l), {"line": l, "impl_output": o})
         if "~dirty" in o:
             rep.fail("removed-slot-not-cleared", "a removed slot still holds a key/value: %s -> %s" % (l, o), {"line": l, "impl_output": o})
-        olines.append("ordoraclesorto %s %s %s" % (l.split(" ")[1], t[0], t[1])); meta.append(l)
+        olines.append("ordoraclesort %s %s %s %s" % (t[0], t[1], t[2], t[3])); meta.append(l)
     for v, l, ol in zip(oracle(ctx, drv, olines), meta, olines):
         if v != "ok":
             rep.fail("sort:" + v, "object Sort result is '%s': %s -> %s" % (v, l, ol), {"line": l, "oracle_line": ol})
